@@ -14,6 +14,7 @@ import (
 func (e *Engine) verifyFunction(fn *ssa.Function, fc *FuncContract) (c *Ctx) {
 	c = e.newCtx(fn, fc)
 	c.external = map[string]bool{}
+	c.nonNil = map[string]bool{}
 	defer func() {
 		if r := recover(); r != nil {
 			c.errorf("engine panic: %v\n%s", r, debug.Stack())
@@ -35,6 +36,7 @@ func (e *Engine) verifyFunction(fn *ssa.Function, fc *FuncContract) (c *Ctx) {
 		c.inputs = append(c.inputs, v.T)
 		if k == 0 && fn.Signature.Recv() != nil && isRefType(p.Type()) && (fc == nil || !fc.Nullable[p.Name()]) {
 			c.fact("(not (= " + v.T + " 0))")
+			c.nonNil[v.T] = true
 		}
 		if fc != nil {
 			if k, ok := fc.FnParams[p.Name()]; ok {
@@ -214,6 +216,9 @@ func (e *Engine) verifyFunction(fn *ssa.Function, fc *FuncContract) (c *Ctx) {
 		}
 		sort.Strings(keys)
 		n0 := c.nextRef(entryState)
+		// one frame obligation per return: the conjunction over all heap keys that changed
+		var fgoals []string
+		var fkeys []string
 		for _, k := range keys {
 			oldH := c.heapTerm(entryState, k)
 			newH := c.heapTerm(rt.st, k)
@@ -222,7 +227,18 @@ func (e *Engine) verifyFunction(fn *ssa.Function, fc *FuncContract) (c *Ctx) {
 			}
 			g := c.frameGoal(k, oldH, newH, n0, objs[k])
 			if g != "true" {
-				f.oblige("frame["+k+"]"+suffix, nil, rt.reach, g)
+				fgoals = append(fgoals, g)
+				fkeys = append(fkeys, k)
+			}
+		}
+		if len(fgoals) > 0 {
+			g := fgoals[0]
+			if len(fgoals) > 1 {
+				g = "(and " + strings.Join(fgoals, " ") + ")"
+			}
+			ob := f.oblige("frame"+suffix, nil, rt.reach, g)
+			if ob != nil {
+				ob.Clause = "nothing outside the modifies clause changed: " + strings.Join(fkeys, ", ")
 			}
 		}
 		for name := range rt.st.ghosts {
